@@ -42,7 +42,7 @@ func (v *VerifModule) Handle(product string, rules []VerifRule, req *bfe_basic.R
 		}
 		list = append(list, AuthJWTRule{Cond: cond, Keys: kps, Realm: r.Realm})
 	}
-	conf := AuthJWTConf{Version: "verif", Config: ProductRules{}}
+	conf := AuthJWTConf{Version: VerifVersion, Config: ProductRules{}}
 	if product != "" {
 		conf.Config[product] = &list
 	}
@@ -63,7 +63,11 @@ func (v *VerifModule) VerifLoadKeyFile(filename, product string, req *bfe_basic.
 		return 0, 0, nil, err
 	}
 	list := RuleList{AuthJWTRule{Cond: cond, Keys: kps, Realm: "R"}}
-	v.m.ruleTable.Update(AuthJWTConf{Version: "verif", Config: ProductRules{product: &list}})
+	v.m.ruleTable.Update(AuthJWTConf{Version: VerifVersion, Config: ProductRules{product: &list}})
 	ret, resp = v.m.authJWTHandler(req)
 	return len(kps), ret, resp, nil
 }
+
+// VerifVersion is the Version string the hook puts into the conf it passes to ruleTable.Update
+// (reload histories use several).
+var VerifVersion = "verif"
